@@ -16,6 +16,9 @@ R-C07.4  the index of a subscripted place is compiled once and reused for the wr
 R-C07.5  comptime tracing writes borrowed values back: `trace_call` interpreted on argument lists of length <= 3 over
          {owned, borrowed} with recorder tokens: update_packed_value once per borrowed argument, in order, with the post-call
          wire and the variable's type; a failed update raises GuppyComptimeError (c07_trace.py).
+R-C07.7  `update_packed_value` interpreted on Guppy-object leaves, tuples, struct objects, lists and plain Python numbers: every
+         leaf gets the wire of its own component and is available again; a plain value that cannot be updated in place is
+         replaced by an object for that element, not for the whole container (c07_update.py).
 Not decided: which value the caller observes at run time.
 """
 
@@ -227,7 +230,8 @@ def run(ctx: Ctx) -> None:
               "loses its own (with all earlier in-place updates)")
 
     # ------------------------------------------------------------ R-C07.5 tracing write-back
-    from . import c07_trace
+    from . import c07_trace, c07_update
+    c07_update.run(ctx)  # R-C07.7: what update_packed_value does with each kind of Python value
     if not c07_trace.run(ctx):
         # fallback (trace_call not interpretable): the loop over the inputs mentions the flag test and the update helper
         tc = idx.find_func("trace_call", "guppylang_internals.tracing.function")
